@@ -345,6 +345,7 @@ type totalInput struct {
 	// only): the binder has to report an error, a nil error with a zero / partial struct is a
 	// silent failure. Empty = nothing is demanded beyond "no panic".
 	mustFail string
+	site     string // signature site for mustFail violations ("" = derived from the binder)
 }
 
 func sanitizeLine(s string) string {
@@ -550,6 +551,7 @@ func (en *engine) totalRun(c *ev.Case, op string, t *typeSpec, outKind int, auto
 		bop = "form"
 	}
 	p := &probe{op: bop, auto: auto, swallow: swallow, typ: t, outKind: outKind}
+	en.lastTotal = p
 	app := fiber.New(fiber.Config{EnableSplittingOnParsers: split, ReadBufferSize: 1 << 16})
 	app.All("/t", p.handler)
 	app.All("/u/:Zqau/:Zqbu?", p.handler)
@@ -609,6 +611,9 @@ func (en *engine) totalRun(c *ev.Case, op string, t *typeSpec, outKind int, auto
 		switch bop {
 		case "query", "form", "header", "cookie", "uri":
 			site = "text-binders" // they share binder.parse / the schema decoder: one root cause, one signature
+		}
+		if in.site != "" {
+			site = in.site
 		}
 		e.Violation(c, "totality|"+site+"|silent-success|"+in.mustFail,
 			"the binder returned nil for input it cannot bind ("+in.mustFail+"): failure must be reported as an error", descr)
